@@ -39,3 +39,11 @@ def clear_process_caches() -> None:
     import jinja2
 
     jinja2.clear_caches()
+
+
+def _ae_by_name(name):
+    """Callable autoescape (like select_autoescape): only some template names are escaped."""
+    return name in ("main", "inc")
+
+
+AE_MODES = (False, True, _ae_by_name)
